@@ -160,6 +160,18 @@ def check_class(chk, F, short, cls):
     if True:
         if True:
             M = spline_model(F, cls)
+            if short != "CubicSplineND":
+                # R4 first: the closed-form inverse is a function of its own (two b x b matrix parameters, called by the
+                # solver); its obligations do not depend on the rest of the solver being analysable
+                b_ = M.s - 1
+                _call, solver_fn = blocks.find_solver(F, M)
+                if not hasattr(chk, "_inv_done"):
+                    chk._inv_done = set()
+                for _c, h in F.callees(solver_fn):
+                    ps = h.get("params", [])
+                    if len(ps) == 2 and all(p["ty"].get("c") == "eigen" and p["ty"].get("rows") == b_ and p["ty"].get("cols") == b_ for p in ps) and h["fid"] not in chk._inv_done:
+                        chk._inv_done.add(h["fid"])
+                        check_inverse(chk, F, cls, h, b_)
             I0, Lc, rows = c01.closure_rows(F, M)
             i = Lc.var
             roles = c01.deriv_roles(M, rows, i)
@@ -184,6 +196,7 @@ def check_class(chk, F, short, cls):
 def check_block(chk, F, M, rows, i, roles, J, m, remaining):
     cls = M.cls
     b = M.s - 1
+    inv_done = getattr(chk, "_inv_done", set())
     R = {k: BlockRun(F, M, k) for k in ("middle", "first", "last", "single")}
     Bm = R["middle"]
     g = Bm.fn
@@ -351,22 +364,75 @@ def check_block(chk, F, M, rows, i, roles, J, m, remaining):
     chk.ob("C02-R3", "%s back-substitution: x_i = D'^-1_i (rhs'_i - U_i x_{i+1}) from block N-2 down to 0" % cls, bool(okb), loc(g), "", construct=cls + "/back-substitution")
     # ---- R4 inverse --------------------------------------------------------------------------
     inv_f = F.by_fid[Bm.inv_call["fid"]]
-    check_inverse(chk, F, cls, inv_f, b)
+    if inv_f["fid"] not in inv_done:
+        check_inverse(chk, F, cls, inv_f, b)
+
+
+def path_witness(assign, syms):
+    """An exact sample point (rationals for the matrix entries, a value for each named positive constant) at which every
+    condition of the path has the truth value the path assumes; None when none of the candidates qualifies."""
+    import itertools
+    consts = sorted({x for k in assign for x in k.free_symbols if x not in syms}, key=str)
+    base = [sp.Rational(p_, q_) for p_, q_ in ((2, 1), (-1, 3), (3, 2), (1, 5), (-2, 7), (5, 3), (1, 1), (-3, 4), (7, 2), (2, 9), (-5, 6), (4, 3), (1, 7), (-1, 2), (3, 5), (6, 5))]
+    for shift in range(4):
+        pt = {s_: base[(i_ * (shift + 1) + shift) % len(base)] + (i_ // len(base)) for i_, s_ in enumerate(syms)}
+        for cv in itertools.product((sp.Integer(10) ** 9, sp.Integer(10) ** -9, sp.Integer(1)), repeat=len(consts)):
+            full = dict(pt)
+            full.update(dict(zip(consts, cv)))
+            try:
+                if all(bool(k.subs(full)) == bool(v) for k, v in assign.items()):
+                    return full
+            except Exception:
+                continue
+    return None
 
 
 def check_inverse(chk, F, cls, f, b):
+    """A * inv(A) = I entrywise on every path through the closed-form inverse.  A test on the values of A (a threshold on
+    the determinant, say) opens a second path: its result has to be the inverse as well, because a matrix that takes
+    that path is in general still nonsingular.  Only the path on which the determinant is exactly zero is outside the
+    domain."""
+    from .. import paths as paths_
     chk.saw(f)
-    I = Interp(F, cls)
-    A = SmallMat(b, b, [[sp.Symbol("a%d%d" % (r, c), real=True) for c in range(b)] for r in range(b)])
-    Out = SmallMat(b, b)
-    env = {f["params"][0]["id"]: A, f["params"][1]["id"]: Out}
-    I.run_body(f, env)
-    P = sp.Matrix(A.e) * sp.Matrix(Out.e)
-    for r in range(b):
-        for c in range(b):
-            ok = sym.is_zero(P[r, c] - (1 if r == c else 0))
-            chk.ob("C02-R4", "%s %s: (A * inv(A))[%d,%d] = %d" % (cls, f["name"], r, c, 1 if r == c else 0), ok, loc(f), sp.sstr(sp.simplify(P[r, c]))[:120],
-                   construct="%s/%s/%d%d" % (cls, f["name"], r, c))
+    A0 = [[sp.Symbol("a%d%d" % (r, c), real=True) for c in range(b)] for r in range(b)]
+    detA = sp.expand(sp.Matrix(A0).det())
+
+    def run_(oracle):
+        I = Interp(F, cls)
+        I.opaque_conditions = True
+        I.path_oracle = oracle
+        A = SmallMat(b, b, [[x for x in row] for row in A0])
+        Out = SmallMat(b, b)
+        env = {f["params"][0]["id"]: A, f["params"][1]["id"]: Out}
+        try:
+            I.run_body(f, env)
+        except Unsupported as ex:
+            raise Broken("closed-form inverse %s not analysable: %s" % (f["name"], ex))
+        return A, Out
+    results = paths_.explore(run_)
+    for assign, (A, Out) in results:
+        singular = any(v and isinstance(k, sp.Eq) and sym.is_zero(sp.expand(k.lhs - k.rhs) - detA) or sym.is_zero(sp.expand(k.lhs - k.rhs) + detA) and v and isinstance(k, sp.Eq) for k, v in assign.items())
+        if singular:
+            continue
+        cond = " and ".join("%s%s" % ("" if v else "not ", sp.sstr(k)) for k, v in assign.items())
+        if any(x is None for row in Out.e for x in row):
+            ok_all = False
+            P = None
+        else:
+            P = sp.Matrix(A0) * sp.Matrix(Out.e)
+        wit = path_witness(assign, [x for row in A0 for x in row]) if assign else None
+        for r in range(b):
+            for c in range(b):
+                if P is None:
+                    ok = False
+                elif wit is not None and abs(sp.N((P[r, c] - (1 if r == c else 0)).subs(wit), 50)) > sp.Float("1e-30"):
+                    ok = False       # refuted at an exact sample point that lies on this path
+                else:
+                    e_ = P[r, c] - (1 if r == c else 0)
+                    ok = sp.numer(sp.together(e_)).expand() == 0 or sym.is_zero(e_)
+                chk.ob("C02-R4", "%s %s: (A * inv(A))[%d,%d] = %d%s" % (cls, f["name"], r, c, 1 if r == c else 0, (" on the path [%s]" % cond[:120]) if cond else ""), ok, loc(f),
+                       ((sp.sstr(sp.simplify(P[r, c])) if not assign else sp.sstr(P[r, c]))[:120] if P is not None else "result entry not written on this path"),
+                       construct="%s/%s/%d%d%s" % (cls, f["name"], r, c, ("/" + cond[:80]) if cond else ""))
 
 
 def check_cubic(chk, F, M, I, rows, i, roles, J, m):
